@@ -549,38 +549,37 @@ func c16MarkerWithHistory(c *Ctx) {
 		return
 	}
 	c.saw(qname(f))
-	// sites of the function and of its local closures (a "delete the marker, then write" closure shared by the commits)
-	var allSites []Site
-	inClosure := false
-	for _, g := range withAnons(f) {
-		allSites = append(allSites, sitesOf(g)...)
-	}
-	var marks []Site
-	for _, s := range allSites {
-		if s.Callee != nil && s.Callee.Name() == "DeleteRange" || s.Method != nil && s.Method.Name() == "DeleteRange" {
-			all := ""
-			for _, a := range s.Args() {
-				all += termF(a) + " "
-			}
-			if s.Recv != nil {
-				all += termF(s.Recv)
-			}
-			if strings.Contains(all, "blockCommitmentsRange") {
-				marks = append(marks, s)
-			}
+	// sites of the function, of its local closures (a "delete the marker, then write" closure shared by the commits) and of
+	// same-package helpers it calls (a method of a small batch-rotation type: refactoring C16-R10)
+	isMark := func(s Site) bool {
+		if !(s.Callee != nil && s.Callee.Name() == "DeleteRange" || s.Method != nil && s.Method.Name() == "DeleteRange") {
+			return false
 		}
+		all := ""
+		for _, a := range s.Args() {
+			all += termF(a) + " "
+		}
+		if s.Recv != nil {
+			all += termF(s.Recv)
+		}
+		return strings.Contains(all, "blockCommitmentsRange")
 	}
+	isWrite := func(s Site) bool {
+		return s.Method != nil && s.Method.Name() == "Write" && strings.HasSuffix(typeShort(s.Recv.Type()), "db.Batch")
+	}
+	marks := p.deepSites(f, isMark, 2)
+	writes := p.deepSites(f, isWrite, 2)
 	n := 0
-	for _, s := range allSites {
-		if !(s.Method != nil && s.Method.Name() == "Write" && strings.HasSuffix(typeShort(s.Recv.Type()), "db.Batch")) {
-			continue
-		}
+	inHelper := false
+	for _, w := range writes {
 		n++
+		s := w.Site
 		if s.Instr.Parent() != f {
-			inClosure = true
+			inHelper = true
 		}
 		ok := false
-		for _, m := range marks {
+		for _, md := range marks {
+			m := md.Site
 			if m.Instr.Parent() != s.Instr.Parent() {
 				continue
 			}
@@ -594,7 +593,7 @@ func c16MarkerWithHistory(c *Ctx) {
 		}
 		c.check(ok, "marker-with-history", fmt.Sprintf("pruneHashKeyedUpto: batch commit #%d", n), p.Pos(s.Pos()), "the commit also range-deletes the block commitments of the blocks processed so far", "a batch of the sweep is committed without deleting the block commitments of the blocks whose history it removes: after a crash the floor re-derived from the commitments admits state queries for blocks whose history is already gone")
 	}
-	if n < 2 && !(inClosure && n == 1) {
+	if n < 2 && !(inHelper && n == 1) {
 		c.und("marker-with-history", "pruneHashKeyedUpto", p.Pos(fnPos(f)), fmt.Sprintf("only %d batch commits found", n))
 	}
 	// … up to and including the block whose history the current iteration has just deleted: a marker delete that runs inside
@@ -619,22 +618,39 @@ func c16MarkerWithHistory(c *Ctx) {
 			return false, term(v)
 		}
 		k, isK := b.Y.(*ssa.Const)
-		_, isPhi := b.X.(*ssa.Phi)
-		if !isPhi {
-			if u, isU := b.X.(*ssa.UnOp); isU && u.Op == token.MUL {
-				isPhi = true // counter kept in a named result / captured variable
+		switch x := b.X.(type) {
+		case *ssa.Phi, *ssa.Parameter:
+		case *ssa.UnOp:
+			if x.Op != token.MUL {
+				return false, term(v) // counter kept in a named result / captured variable is a load
+			}
+		default:
+			return false, term(v)
+		}
+		return isK && k.Value != nil && k.Int64() >= 1, term(v)
+	}
+	paramIdx := func(g *ssa.Function, v ssa.Value) int {
+		pa, ok := v.(*ssa.Parameter)
+		if !ok {
+			return -1
+		}
+		for i, q := range g.Params {
+			if q == pa {
+				return i
 			}
 		}
-		return isK && isPhi && k.Value != nil && k.Int64() >= 1, term(v)
+		return -1
 	}
 	nm := 0
-	for _, m := range marks {
+	for _, md := range marks {
+		m := md.Site
 		args := m.Args()
 		if len(args) == 0 {
 			continue
 		}
 		end := args[len(args)-1]
-		if m.Instr.Parent() == f {
+		g := m.Instr.Parent()
+		if g == f {
 			if !inSameLoop(m.Block(), m.Block()) || !perBlock(m.Instr) {
 				continue
 			}
@@ -643,26 +659,34 @@ func c16MarkerWithHistory(c *Ctx) {
 			c.check(ok, "marker-with-history", fmt.Sprintf("pruneHashKeyedUpto: in-loop marker bound #%d", nm), p.Pos(m.Pos()), "ends above the block just pruned (counter + k)", "the commitments are deleted only below "+t+" although the history of the loop's current block was already deleted in this batch: after a crash behind this batch that block is advertised as retained")
 			continue
 		}
-		// inside a local closure: the bound is a parameter; judge every in-loop call of the closure
-		pa, isParam := end.(*ssa.Parameter)
-		if !isParam {
-			continue
-		}
-		idx := -1
-		for i, q := range m.Instr.Parent().Params {
-			if q == pa {
-				idx = i
+		// inside a local closure or a helper: the bound is (derived from) a parameter; judge every in-loop call
+		var calls []Site
+		if len(md.Chain) > 0 {
+			calls = []Site{md.Chain[0]}
+			if len(md.Chain) > 1 {
+				continue // deeper than one helper level: out of the fragment (the commit pairing above still applies)
+			}
+		} else {
+			for _, s := range sitesOf(f) {
+				if s.Callee == g {
+					calls = append(calls, s)
+				}
 			}
 		}
-		for _, s := range sitesOf(f) {
-			if s.Callee != m.Instr.Parent() || idx < 0 || idx >= len(s.Args()) {
-				continue
-			}
-			if !inSameLoop(s.Block(), s.Block()) || !perBlock(s.Instr) {
+		for _, s := range calls {
+			if s.Instr.Parent() != f || !inSameLoop(s.Block(), s.Block()) || !perBlock(s.Instr) {
 				continue
 			}
 			nm++
-			ok, t := endOK(s.Args()[idx])
+			var ok bool
+			var t string
+			if idx := paramIdx(g, end); idx >= 0 && idx < len(s.Args()) {
+				ok, t = endOK(s.Args()[idx]) // bound passed in: the argument must already be counter + k
+			} else if b, isB := end.(*ssa.BinOp); isB && paramIdx(g, b.X) >= 0 {
+				ok, t = endOK(end) // helper adds the +k to its parameter
+			} else {
+				ok, t = false, term(end)
+			}
 			c.check(ok, "marker-with-history", fmt.Sprintf("pruneHashKeyedUpto: in-loop marker bound #%d", nm), p.Pos(s.Pos()), "ends above the block just pruned (counter + k)", "the commitments are deleted only below "+t+" although the history of the loop's current block was already deleted in this batch: after a crash behind this batch that block is advertised as retained")
 		}
 	}
